@@ -43,6 +43,10 @@ THEOREMS = [
     "JanetModel.Props.C18.gen_mayGrow",
     "JanetModel.Props.C18.benign_calls_keep_flags",
     "JanetModel.Props.C18.sandbox_enforced",
+    "JanetModel.Props.C18.stays_enforced",
+    "JanetModel.Props.C18.thread_enforced",
+    "JanetModel.Props.C18.run_never_reenables",
+    "JanetModel.Props.C18.sandbox_enforced_threads",
 ]
 WRAPPED = ("remove unlink rmdir chdir opendir getenv unsetenv rename link symlink system mkdir chmod utime stat stat64 lstat "
            "lstat64 readlink realpath open open64 fopen fopen64 tmpfile tmpfile64 connect bind listen getaddrinfo fork execv "
